@@ -41,7 +41,16 @@ def battery(variant, extra_norms=(), extra_vectors=()):
         sq = squares_for(T - 1, 6144)
         if sq: out.append(('norm %d (bound%+d)' % (T, T - b), [1], [(-v if i % 2 else v) for i, v in enumerate(sq)], None))
     for s2, s1 in extra_vectors:
-        out.append(('vectors from the solver model', [x for x in s2 if x] or [1], list(s1), None))
+        s2v = [x for x in s2 if x] or [1]
+        out.append(('vectors from the solver model', s2v, list(s1), None))
+        # the same coefficients, padded with further s1 coefficients so that the true norm sits just inside / just outside the bound:
+        # a wrong per-coefficient contribution then flips the decision
+        base = sum(x * x for x in s1) + sum(x * x for x in s2v)
+        for target, lab in ((b - 100, 'padded to bound-100'), (b + 100, 'padded to bound+100')):
+            if base < target:
+                sq = squares_for(target - base, 6144)
+                if sq:
+                    out.append(('vectors from the solver model, ' + lab, s2v, list(s1) + [(-v if i % 2 else v) for i, v in enumerate(sq)], None))
     out.append(('small negative s1 (centred representative matters)', [1], [-1, -2, -100, 3, -6000], None))
     sq = squares_for(b - 1000, 6144)
     out.append(('s2 carries the excess over the bound', [100], sq, None))
